@@ -317,6 +317,6 @@ func runCase(c Case, ctx *hx.Ctx) *hx.Failure {
 	return nil
 }
 
-func TestPropTruncated(t *testing.T) { hx.Check(t, 4000, genCase, runCase) }
+func TestPropTruncated(t *testing.T) { hx.Check(t, 12000, genCase, runCase) }
 
 func TestReplay(t *testing.T) { hx.Replay(t, "TestPropTruncated", 3, runCase) }
